@@ -232,6 +232,67 @@ func (r *Real) Exec(o model.Op) (panicked bool, ret any, pmsg any) {
 		delete(r.Fwd[o.R].(*GoMap).M, r.T.Str(o.I))
 		return false, nil, nil
 	}
+	switch o.Op {
+	case "Equals":
+		switch a := r.Fwd[o.R].(type) {
+		case at.List:
+			return false, a.Equals(r.Inner(r.list(o.J)).(at.List)), nil
+		case at.Object:
+			return false, a.Equals(r.Inner(r.object(o.J)).(at.Object)), nil
+		}
+	case "ForEach":
+		switch a := r.Fwd[o.R].(type) {
+		case at.List:
+			switch o.I {
+			case 0:
+				return false, a.ForEach(func(int, any) {}), nil
+			case 1:
+				return false, a.ForEachValue(func(any) {}), nil
+			case 2:
+				return false, a.ForEachObject(func(at.Object) {}), nil
+			case 3:
+				return false, a.ForEachList(func(at.List) {}), nil
+			case 4:
+				return false, a.ForEachString(func(string) {}), nil
+			case 5:
+				return false, a.ForEachBool(func(bool) {}), nil
+			case 6:
+				return false, a.ForEachInt(func(int) {}), nil
+			case 7:
+				return false, a.ForEachFloat(func(float64) {}), nil
+			default:
+				return false, a.ForEachAsync(func(int, any) {}), nil
+			}
+		case at.Object:
+			switch o.I {
+			case 0:
+				return false, a.ForEach(func(string, any) {}), nil
+			case 1:
+				return false, a.ForEachValue(func(any) {}), nil
+			case 2:
+				return false, a.ForEachObject(func(at.Object) {}), nil
+			case 3:
+				return false, a.ForEachList(func(at.List) {}), nil
+			case 4:
+				return false, a.ForEachString(func(string) {}), nil
+			case 5:
+				return false, a.ForEachBool(func(bool) {}), nil
+			case 6:
+				return false, a.ForEachInt(func(int) {}), nil
+			case 7:
+				return false, a.ForEachFloat(func(float64) {}), nil
+			default:
+				return false, a.ForEachAsync(func(string, any) {}), nil
+			}
+		}
+	case "NativeCheck":
+		switch a := r.Fwd[o.R].(type) {
+		case at.List:
+			return false, nativeMatches(a.NativeSlice(), a), nil
+		case at.Object:
+			return false, nativeMatches(a.NativeDict(), a), nil
+		}
+	}
 	// list receiver
 	switch o.Op {
 	case "Add", "Insert", "Replace", "Delete", "Pop", "Clear", "Reverse", "Sort", "SubList", "Concat",
@@ -619,3 +680,42 @@ func (r *Real) Snapshot() (map[int]any, map[any]int) {
 }
 
 func (r *Real) Restore(f map[int]any, rv map[any]int) { r.Fwd, r.Rev = f, rv }
+
+// nativeMatches: the native value holds no anytype container at any depth and has the container's content.
+func nativeMatches(n any, c any) bool {
+	switch x := c.(type) {
+	case at.List:
+		s, ok := n.([]any)
+		if !ok || s == nil || len(s) != x.Count() {
+			return false
+		}
+		for i := range s {
+			if !nativeMatches(s[i], x.Get(i)) {
+				return false
+			}
+		}
+		return true
+	case at.Object:
+		m, ok := n.(map[string]any)
+		if !ok || m == nil || len(m) != x.Count() {
+			return false
+		}
+		keys := x.Keys()
+		for i := 0; i < keys.Count(); i++ {
+			k := keys.GetString(i)
+			v, ok := m[k]
+			if !ok || !nativeMatches(v, x.Get(k)) {
+				return false
+			}
+		}
+		return true
+	}
+	switch n.(type) {
+	case at.List, at.Object:
+		return false
+	}
+	if n == nil || c == nil {
+		return n == nil && c == nil
+	}
+	return reflect.TypeOf(n) == reflect.TypeOf(c) && n == c
+}
